@@ -112,3 +112,76 @@ package core
 //@   arith int
 //@   requires b != nil && wfBlob(b)
 //@   ensures count: result1 == nil ==> len(result0.Transactions) == len(b.Indexes.Transactions) && len(result0.Receipts) == len(b.Indexes.Receipts)
+
+// ---- transaction hashes -------------------------------------------------------------------------------
+//@ opaque type github.com/NethermindEth/juno/core/felt.Felt
+//@ opaque type github.com/NethermindEth/juno/core.TransactionVersion
+//@ opaque type github.com/Masterminds/semver/v3.Version
+
+// v3 resource/DA word: fee mode in the low 32 bits, nonce mode in the next 32.
+//@ func dataAvailabilityMode
+//@   props C02
+//@   arith int
+//@   ensures packed: result == feeDAMode + nonceDAMode * 4294967296
+
+//@ ghost func versionIs(v TransactionVersion, n uint64) bool
+//@ func (*TransactionVersion).Is
+//@   trusted
+//@   requires v != nil
+//@   ensures result == versionIs(*v, u64)
+//@ ghost func pedersenArrayOf(elems []felt.Felt) felt.Felt
+//@ ghost func chainIDOf(n *networks.Network) *felt.Felt
+//@ extern func github.com/NethermindEth/juno/core/crypto.PedersenArray
+//@   ensures result == pedersenArrayOf(elems)
+//@ extern func github.com/NethermindEth/juno/core/crypto.PedersenElems
+//@   logged
+//@ extern func github.com/NethermindEth/juno/blockchain/networks.(*Network).L2ChainIDFelt
+//@   ensures result == chainIDOf(n)
+
+// L1 handler: the hash is recomputed from exactly the protocol's element list whenever the
+// transaction carries a nonce (only nonce-less legacy transactions are taken at their word).
+//@ func l1HandlerTransactionHash
+//@   props C02
+//@   arith int
+//@   requires l != nil && l.Version != nil && n != nil && (l.Nonce == nil ==> l.TransactionHash != nil)
+//@   assigns calls_PedersenElems, arg_PedersenElems_elems
+//@   callsite PedersenElems@*: preimage: len(elems) == 8 && elems[0] == l1HandlerFelt && elems[1] == l.Version && elems[2] == l.ContractAddress && elems[3] == l.EntryPointSelector && *elems[4] == pedersenArrayOf(l.CallData) && elems[5] == &felt.Zero && elems[6] == chainIDOf(n) && elems[7] == l.Nonce
+//@   ensures recomputed: result1 == nil && l.Nonce != nil ==> calls_PedersenElems == old(calls_PedersenElems) + 1
+//@   ensures v0_only: !versionIs(*l.Version, 0) ==> result1 != nil
+
+// ---- VerifyTransactions: every transaction hash is recomputed, except before 0.11.0 --------------
+//@ ghost func verLess(a semver.Version, b semver.Version) bool
+//@ ghost func verOf(s string) semver.Version
+//@ ghost func blockVer(s string) semver.Version
+//@ extern func github.com/Masterminds/semver/v3.MustParse
+//@   ensures result != nil && *result == verOf(v)
+//@ extern func github.com/Masterminds/semver/v3.(*Version).LessThan
+//@   requires v != nil && o != nil
+//@   ensures result == verLess(*v, *o)
+//@ extern func github.com/Masterminds/semver/v3.(*Version).LessThanEqual
+//@   requires v != nil && o != nil
+//@   ensures result == (verLess(*v, *o) || *v == *o)
+//@ extern func github.com/Masterminds/semver/v3.(*Version).GreaterThanEqual
+//@   requires v != nil && o != nil
+//@   ensures result == !verLess(*v, *o)
+//@ func ParseBlockVersion
+//@   trusted
+//@   ensures result1 == nil ==> result0 != nil && *result0 == blockVer(protocolVersion)
+//@ func TransactionHash
+//@   trusted
+//@   logged
+//@ func (Transaction).Hash
+//@   ensures result != nil
+//@ extern func github.com/NethermindEth/juno/core/felt.(*Felt).Equal
+//@   requires z != nil && x != nil
+//@   ensures result <==> (*z == *x)
+
+//@ func VerifyTransactions
+//@   props C02
+//@   arith int
+//@   requires forall j int :: 0 <= j && j < len(txs) ==> txs[j] != nil
+//@   assigns calls_TransactionHash, arg_TransactionHash_transaction, arg_TransactionHash_n
+//@   loop 1: invariant bounds: -1 <= rangeindex && rangeindex < len(txs)
+//@   loop 1: invariant counted: calls_TransactionHash == old(calls_TransactionHash) + rangeindex + 1
+//@   ensures only_old_blocks_skip: result == nil && len(txs) > 0 && calls_TransactionHash == old(calls_TransactionHash) ==> verLess(blockVer(protocolVersion), verOf("0.11.0"))
+//@   ensures all_recomputed: result == nil && !verLess(blockVer(protocolVersion), verOf("0.11.0")) ==> calls_TransactionHash == old(calls_TransactionHash) + len(txs)
